@@ -474,6 +474,71 @@ def _(m):
                  "            while i0 < len(coords0) and i1 < len(coords1):\n                self.num_intersects += (0 if coords0[i0] == coords1[i1] == 4 else 1)")
 
 
+# ------------------------------------------------------------------------------- round-4 oracles
+@mutant("c10_getactive_remembers_estimate", "C10")
+def _(m):
+    patch_method(m["Fiber"], "getActive", "    start = Fiber._transCoord(shape, lambda c: 0)\n    return (start, shape)",
+                 "    start = Fiber._transCoord(shape, lambda c: 0)\n    if not self.getRankAttrs().getShape():\n        self.setActive((start, shape))\n    return (start, shape)")
+
+
+@mutant("c05_getactive_remembers_estimate", "C05")
+def _(m):
+    patch_method(m["Fiber"], "getActive", "    start = Fiber._transCoord(shape, lambda c: 0)\n    return (start, shape)",
+                 "    start = Fiber._transCoord(shape, lambda c: 0)\n    if not self.getRankAttrs().getShape():\n        self.setActive((start, shape))\n    return (start, shape)")
+
+
+@mutant("c10_copy_keeps_operand_ranks_as_owner", "C10")
+def _(m):
+    import copy as _copy
+    F = m["Fiber"]
+
+    def copy(self, preserve_owner=True):
+        """Deep copying that allows the owner to not be copied"""
+        owners = self._detach_owner()
+        copied = _copy.deepcopy(self)
+        self._attach_owner(owners)
+        if preserve_owner:
+            copied._attach_owner(owners)
+        else:
+            copied._attach_attrs(owners)
+        return copied
+    F.copy = copy
+
+
+@mutant("c15_lshift_start_pos_zero_is_none", "C15")
+def _(m):
+    it = m["iterators"]
+    patch_modfunc(it, "__lshift__", "                if self.spec_pos is not None:\n                    self.a_fiber.setSavedPos(a_pos - 1)",
+                  "                if self.spec_pos:\n                    self.a_fiber.setSavedPos(a_pos - 1)", also=(m["Fiber"],))
+
+
+@mutant("c15_split_by_fiber_ticks", "C15")
+def _(m):
+    patch_method(m["Fiber"], "splitNonUniform", "        splits = splits.getCoords()", "        splits = [c for c, _ in splits]")
+
+
+@mutant("c17_cache_below_one_line_holds_nothing", "C17")
+def _(m):
+    T = m["traffic"]
+    patch_method(T.Traffic, "cacheTraffic",
+                 "        if occupancy + line_sz <= capacity:\n            to_buffer = True",
+                 "        if capacity < line_sz:\n            to_buffer = False\n        elif occupancy + line_sz <= capacity:\n            to_buffer = True")
+
+
+@mutant("c19_unbounded_merge_not_resorted", "C19")
+def _(m):
+    C = m["compute"]
+    patch_method(C.Compute, "_merge", "    merged.sort()\n\n    return compares, merged", "    return compares, merged")
+
+
+@mutant("c13_dict2fiber_tuples_top_level_only", "C13")
+def _(m):
+    patch_method(m["Fiber"], "fiber2dict", "{'coords': self.coords,",
+                 "{'coords': [(lambda f, c: f(f, c))(lambda f, c: [f(f, x) for x in c] if isinstance(c, tuple) else c, c) for c in self.coords],")
+    patch_method(m["Fiber"], "dict2fiber", "        f_coords = y_fiber['coords']",
+                 "        f_coords = [tuple(c) if isinstance(c, list) else c for c in y_fiber['coords']]")
+
+
 def apply(name):
     if name not in MUTANTS:
         raise SystemExit(f"unknown mutant {name}; known: {sorted(MUTANTS)}")
